@@ -71,8 +71,12 @@ def confinement : List Confine := [
   -- written by the response pump, read by the handler after Forward returned (Forward waits for its pumps: C02 cleanup)
   ⟨"webbridge.gRPCWebSocketStream.trailer", ["webbridge.gRPCWebSocketStream.SetTrailer", "webbridge.gRPCWebSocketStream.sendTrailer"], "pump, then handler after Forward returned (wg.Wait)"⟩,
   ⟨"webbridge.gRPCWebStream.trailer", ["webbridge.gRPCWebStream.SetTrailer", "webbridge.GRPCWebBridge.ServeHTTP"], "pump, then handler after Forward returned (wg.Wait)"⟩,
-  -- both on the send side (the helper goroutine of withCtx); the pair with writeError is NOT ordered: see knownUnprotected
-  ⟨"webbridge.responseWrapper.writtenStatus", ["webbridge.responseWrapper.Write", "webbridge.responseWrapper.WriteHeader"], "send side, single owner"⟩
+  -- the send side (the helper goroutine of withCtx, under httpStream.mu / gRPCWebStream.mu) and then the handler's error
+  -- path: since fixes D30 (gRPC-Web) and D21 (transcoded HTTP) the handler calls finish() after Forward returned and BEFORE
+  -- writeError — finish() takes the stream's mutex and sets `finished`, so a straggling send is waited for or becomes a
+  -- no-op (C10 httpStream LTS: C10_stream_single_writer, C10_no_write_after_return). The mutex belongs to the STREAM, not to
+  -- responseWrapper, so the lock table cannot credit it (`own`); the ordering is recorded here instead.
+  ⟨"webbridge.responseWrapper.writtenStatus", ["webbridge.responseWrapper.Write", "webbridge.responseWrapper.WriteHeader", "webbridge.writeError"], "send side, then handler after the stream's finish() fence (C10)"⟩
 ]
 
 def confined (a b : Acc) : Bool :=
@@ -82,10 +86,7 @@ def protectedPair (a b : Acc) : Bool := commonLock a b || confined a b
 
 /-- Conflicting pairs known to be unordered on the current tree (genuine findings, mirrored in
     /verif/known_findings.json): (field, function, function). -/
-def knownUnprotected : List (String × String × String) := [
-  ("webbridge.responseWrapper.writtenStatus", "webbridge.responseWrapper.Write", "webbridge.writeError"),
-  ("webbridge.responseWrapper.writtenStatus", "webbridge.responseWrapper.WriteHeader", "webbridge.writeError")
-]
+def knownUnprotected : List (String × String × String) := []   -- empty since fix D21 (was: writtenStatus, Write/WriteHeader vs writeError)
 
 def isKnown (a b : Acc) : Bool :=
   knownUnprotected.any (fun k => k.1 == a.field && ((k.2.1 == a.fn && k.2.2 == b.fn) || (k.2.1 == b.fn && k.2.2 == a.fn)))
